@@ -149,12 +149,12 @@ def joinSemi : List Str → Str
 
 mutual
 /-- canonical text of a normal form (for comparison with CPython's view, and for reading);
-the members of a `Literal[…]` are a set, shown sorted -/
+the members of a `Literal[…]` and the alternatives of a union are sets, shown sorted -/
 def Ty.show : Ty → Str
   | .atom s => s
   | .app h args =>
     h ++ '(' :: (if h = sLiteral then joinSemi (sortStrs (Ty.showL args)) else joinSemi (Ty.showL args)) ++ [')']
-  | .union as n => '{' :: joinSemi (Ty.showL as ++ (if n then [sNone] else [])) ++ ['}']
+  | .union as n => '{' :: joinSemi (sortStrs (Ty.showL as) ++ (if n then [sNone] else [])) ++ ['}']
 def Ty.showL : List Ty → List Str
   | [] => []
   | t :: ts => Ty.show t :: Ty.showL ts
